@@ -76,6 +76,14 @@ def _cases(tier, r):
             for rng_kind in ("inside", "cross"):
                 for paranoid in ((True,) if tier == "quick" else (True, False)):
                     out.append((kind, params, phase, rng_kind, r.choice((0.5, 1.0, 2.0)), paranoid))
+    # spectator field: the parameter set and step for which the re-minimisation rolls over the barrier just before the spinodal
+    for dTfac in ((1.0,) if tier == "quick" else (0.5, 1.0, 2.0)):
+        out.append(("toy2", dict(E=0.07, lam=0.12), "low", "cross", dTfac, True))
+    # ... and a looser tracing tolerance (rTol = 1e-4), where that roll-over is frequent: 8th element of the case
+    for kind, params, dTfac in ((("toy2", {}, 1.4), ("toy2", dict(D=0.15, E=0.08, lam=0.11), 1.0), ("toy1", {}, 1.4)) if tier == "quick" else
+                                (("toy2", {}, 1.4), ("toy2", {}, 0.7), ("toy2", dict(D=0.15, E=0.08, lam=0.11), 1.0), ("toy2", dict(E=0.05, lam=0.09), 2.0),
+                                 ("toy1", {}, 1.4), ("toy1", dict(E=0.07, lam=0.12), 2.0), ("toy1r", dict(theta=0.6), 1.4))):
+        out.append((kind, params, "low", "cross", dTfac, True, 1e-4))
     # rotated field basis: non-diagonal Hessian at the traced minimum (the spinodal is where an EIGENVALUE vanishes)
     for theta in ((0.6,) if tier == "quick" else (0.6, math.pi / 4, 1.3)):
         for phase, rng_kind in (("low", "cross"), ("low", "inside"), ("high", "cross")):
@@ -102,6 +110,18 @@ def _setup(kind, params, phase, rng_kind):
         exact_field = (lambda T: np.array([0.0])) if phase == "high" else (lambda T: np.array([float(ref.phiBroken(T))]))
         exact_V = (lambda T: float(ref.VSym(T))) if phase == "high" else (lambda T: float(ref.VBroken(T)))
         model = ref
+    elif kind == "toy2":
+        # first-order field + SPECTATOR field (0 in both phases): leaving the branch changes ONE component only
+        model = models.toy2_class()(**params)
+        ref = models.toy1_class()(**{k: v for k, v in params.items() if k in ("D", "E", "lam", "T0", "a", "u")})
+        Tc = ref.Tc()
+        Tn = ref.T0 + 0.6 * (Tc - ref.T0)
+        pb = float(ref.phiBroken(Tn))
+        model.configureDerivatives(WallGo.VeffDerivativeSettings(temperatureVariationScale=0.1 * ref.T0, fieldValueVariationScale=[pb, pb]))
+        guess = Fields([0.0, 0.0]) if phase == "high" else Fields([pb, 0.0])
+        spin_lo, spin_hi = (ref.T0, None) if phase == "high" else (None, ref.T1())
+        exact_field = (lambda T: np.array([0.0, 0.0])) if phase == "high" else (lambda T: np.array([float(ref.phiBroken(T)), 0.0]))
+        exact_V = (lambda T: float(ref.VSym(T))) if phase == "high" else (lambda T: float(ref.VBroken(T)))
     elif kind == "toy1r":
         ref = models.toy1r_class()(**params)
         Tc = ref.Tc()
@@ -148,9 +168,10 @@ def _setup(kind, params, phase, rng_kind):
 def corr(rep: C.Report, tier: str):
     r = C.rng("C11")
     lines, expect, infos = [], [], []
-    for kind, params, phase, rng_kind, dTfac, paranoid in _cases(tier, r):
+    for case in _cases(tier, r):
+        kind, params, phase, rng_kind, dTfac, paranoid = case[:6]
         model, fe, Tn, TMin, TMax, spin_lo, spin_hi, exact_field, exact_V = _setup(kind, params, phase, rng_kind)
-        rTol = 1e-6
+        rTol = case[6] if len(case) > 6 else 1e-6
         dT = dTfac * model.derivativeSettings.temperatureVariationScale * rTol ** 0.25
         with Logger(model) as log:
             try:
@@ -179,7 +200,8 @@ def corr(rep: C.Report, tier: str):
                 "steps_up": len(log.dirs[0]) if log.dirs else 0, "steps_down": len(log.dirs[1]) if len(log.dirs) > 1 else 0,
                 "outcome": outcome, "minPossible": list(fe.minPossibleTemperature), "maxPossible": list(fe.maxPossibleTemperature)}
         infos.append(info)
-        rep.case(key=(kind, str(sorted(params.items())), phase, rng_kind, dTfac, paranoid), sample=info if len(rep.samples) < 4 else None)
+        info["rTol"] = rTol
+        rep.case(key=(kind, str(sorted(params.items())), phase, rng_kind, dTfac, paranoid, rTol), sample=info if len(rep.samples) < 4 else None)
         rep.count(f"trace {phase} {rng_kind}")
         if outcome == "ok":
             _judge(rep, info, fe, Tn, TMin, TMax, dT, rTol, spin_lo, spin_hi, exact_field, exact_V, model)
